@@ -138,6 +138,12 @@ CLAIMED = {
                      "bounded crash exploration (os._exit at every objective call and before/after every execute and commit of a small serial run).",
                 note=TRUST + " SQLite atomicity is assumed; crash points are enumerated for one small configuration only (bounded).",
                 tech="deductive verification of the ordering contracts (ghost pending-statement counter; pyvc/z3) + bounded crash-point enumeration on the real code"),
+    "C13": dict(cat="exploration", ref="5/C13, 9.4",
+                text="BOUNDED, not proved: the combinatorial structure of full-factorial, Plackett-Burman (complete over the supported factor "
+                     "counts 1..23), Box-Behnken (3..8 factors) and generalized subset designs is evaluated at run time on the real generators "
+                     "against independent constructions.",
+                note=TRUST + " numpy code outside the subset: no deductive claim for this property.",
+                tech="bounded run-time contract evaluation against independent reference constructions (stand-in; no deductive obligations)"),
 }
 NA = {
     "C07": "quantifies over thread interleavings; the contract verifier has sequential semantics only and no installed tool gives "
